@@ -26,13 +26,14 @@ def build(tier):
 
 def gen_cases(tier, seed):
     rng = random.Random(seed)
-    n = {"quick": 70, "search": 220, "thorough": 500}[tier]
+    n = {"quick": 60, "search": 200, "thorough": 500}[tier]
     cases = []
     for i in range(n):
         fam = "f" if i % 3 < 2 else "h"
         big = i % 7 == 0
         cases.append({"bseed": rng.randrange(1 << 48), "kind": "reuse_" + fam, "fam": fam,
-                      "p": {"nops": rng.choice([14, 25, 40]) if not big else 14, "big": big, "arena_in": 500000 if big else 300000},
+                      "p": {"nops": rng.choice([14, 25, 40]) if not big else 14, "pbig": 0.3 if big else 0.04, "pmid": 0.3 if big else 0.25,
+                            "arena_in": 500000 if big else 300000},
                       "arena": (500000 if big else 300000) + 3 * sl.K64 + 8192, "mirror": False, "ring": i % 2 == 0})
     return cases
 
